@@ -351,6 +351,7 @@ class Emitter {
     {
         if (!E)
             return nullptr;
+        const Expr *Orig = E;
         E = E->IgnoreParens();
         // skip implicit nodes
         while (true) {
@@ -384,7 +385,9 @@ class Emitter {
         if (E->isPRValue() && E->getType()->isIntegralOrEnumerationType() && !isa<CallExpr>(E)) {
             Expr::EvalResult R;
             if (E->EvaluateAsInt(R, Ctx, Expr::SE_NoSideEffects) && !R.HasSideEffects) {
-                std::string nm = constName(E);
+                std::string nm = constName(Orig);
+                if (nm.empty())
+                    nm = constName(E);
                 if (nm.empty()) {
                     if (const DeclRefExpr *DR = dyn_cast<DeclRefExpr>(E))
                         nm = DR->getDecl()->getNameAsString();
@@ -653,6 +656,115 @@ class Emitter {
         return std::move(o);
     }
 
+    // structured (AST-shaped) view of a function body, for layout / table / kernel rules
+    json::Value A(const Stmt *S)
+    {
+        json::Array a;
+        if (!S) {
+            a.push_back("null");
+            return std::move(a);
+        }
+        SourceLocation L = S->getBeginLoc();
+        auto pos = [&](json::Array &x) {
+            x.push_back(line(L));
+            x.push_back(col(L));
+            x.push_back(L.isMacroID() ? json::Value(macroChain(L)) : json::Value(json::Array()));
+        };
+        if (const CompoundStmt *C = dyn_cast<CompoundStmt>(S)) {
+            a.push_back("block");
+            json::Array ch;
+            for (const Stmt *c : C->body())
+                ch.push_back(A(c));
+            a.push_back(std::move(ch));
+            pos(a);
+            return std::move(a);
+        }
+        if (const IfStmt *I = dyn_cast<IfStmt>(S)) {
+            a.push_back("if");
+            a.push_back(JE(I->getCond()));
+            a.push_back(A(I->getThen()));
+            a.push_back(I->getElse() ? A(I->getElse()) : json::Value(nullptr));
+            pos(a);
+            return std::move(a);
+        }
+        if (const ForStmt *F = dyn_cast<ForStmt>(S)) {
+            a.push_back("for");
+            a.push_back(F->getInit() ? J(F->getInit()) : json::Value(nullptr));
+            a.push_back(F->getCond() ? JE(F->getCond()) : json::Value(nullptr));
+            a.push_back(F->getInc() ? JE(F->getInc()) : json::Value(nullptr));
+            a.push_back(A(F->getBody()));
+            pos(a);
+            return std::move(a);
+        }
+        if (const WhileStmt *W = dyn_cast<WhileStmt>(S)) {
+            a.push_back("while");
+            a.push_back(JE(W->getCond()));
+            a.push_back(A(W->getBody()));
+            pos(a);
+            return std::move(a);
+        }
+        if (const DoStmt *D = dyn_cast<DoStmt>(S)) {
+            a.push_back("do");
+            a.push_back(A(D->getBody()));
+            a.push_back(JE(D->getCond()));
+            pos(a);
+            return std::move(a);
+        }
+        if (const SwitchStmt *Sw = dyn_cast<SwitchStmt>(S)) {
+            a.push_back("switch");
+            a.push_back(JE(Sw->getCond()));
+            a.push_back(A(Sw->getBody()));
+            pos(a);
+            return std::move(a);
+        }
+        if (const CaseStmt *CS = dyn_cast<CaseStmt>(S)) {
+            a.push_back("case");
+            a.push_back(caseLabel(CS));
+            a.push_back(A(CS->getSubStmt()));
+            pos(a);
+            return std::move(a);
+        }
+        if (const DefaultStmt *DS = dyn_cast<DefaultStmt>(S)) {
+            a.push_back("default");
+            a.push_back(A(DS->getSubStmt()));
+            pos(a);
+            return std::move(a);
+        }
+        if (const LabelStmt *LS = dyn_cast<LabelStmt>(S)) {
+            a.push_back("label");
+            a.push_back(LS->getName());
+            a.push_back(A(LS->getSubStmt()));
+            pos(a);
+            return std::move(a);
+        }
+        if (const GotoStmt *G = dyn_cast<GotoStmt>(S)) {
+            a.push_back("goto");
+            a.push_back(G->getLabel()->getName());
+            pos(a);
+            return std::move(a);
+        }
+        if (isa<BreakStmt>(S)) {
+            a.push_back("break");
+            pos(a);
+            return std::move(a);
+        }
+        if (isa<ContinueStmt>(S)) {
+            a.push_back("continue");
+            pos(a);
+            return std::move(a);
+        }
+        if (isa<NullStmt>(S)) {
+            a.push_back("nop");
+            pos(a);
+            return std::move(a);
+        }
+        // leaf: expression, return, declaration
+        a.push_back("s");
+        a.push_back(J(S));
+        pos(a);
+        return std::move(a);
+    }
+
     json::Value function(const FunctionDecl *FD)
     {
         json::Object f;
@@ -670,6 +782,9 @@ class Emitter {
             ps.push_back(std::move(p));
         }
         f["params"] = std::move(ps);
+        curRoot     = nullptr;
+        seenElsewhere.clear();
+        f["ast"]    = A(FD->getBody());
 
         CFG::BuildOptions BO;
         BO.PruneTriviallyFalseEdges = true;
